@@ -152,20 +152,18 @@ Section Main.
       apply andb_true_iff in IMP. destruct IMP as [IMP0 IMP]. apply andb_true_iff in IMP0. destruct IMP0 as [Ea Ev].
       apply (list_eqb_eq _ barg_eqb_eq) in Ea. apply N.eqb_eq in Ev. subst args0 v0.
       cbn [ok_in] in OK.
-      apply andb_true_iff in OK. destruct OK as [OK0 OK3]. apply andb_true_iff in OK0. destruct OK0 as [OK1 OK2].
+      apply andb_true_iff in OK. destruct OK as [OK1 OK3].
       rewrite exec_XBind. cbn [sem].
-      eapply perm_trans; [apply Permutation_map; eapply IHl; eauto|].
-      rewrite map_join_r; auto.
+      eapply perm_trans; [apply flat_map_perm; eapply IHl; eauto|].
+      rewrite flat_map_join_r; auto.
       intros a b Ha Hb.
       assert (Wa : wf a) by (eapply all_wf_in; eauto).
       assert (Wb : wf b) by (eapply all_wf_in; [apply sem_wf | eauto]).
-      apply bind_row_merge; auto.
-      + destruct (lookup a v) eqn:E; auto. exfalso. apply negb_true_iff in OK2.
-        assert (In v inb) by (eapply D; eauto). apply mem_var_in in H. congruence.
-      + intros x Hx. rewrite forallb_forall in OK3. specialize (OK3 x Hx). apply orb_true_iff in OK3. destruct OK3 as [Hc|Hn].
-        * left. eapply sem_cert; eauto. apply mem_var_in. exact Hc.
-        * right. destruct (lookup a x) eqn:E; auto. exfalso. apply negb_true_iff in Hn.
-          assert (In x inb) by (eapply D; eauto). apply mem_var_in in H. congruence.
+      apply ebind_merge; auto.
+      intros x Hx. rewrite forallb_forall in OK3. specialize (OK3 x Hx). apply orb_true_iff in OK3. destruct OK3 as [Hc|Hn].
+      + left. eapply sem_cert; eauto. apply mem_var_in. exact Hc.
+      + right. destruct (lookup a x) eqn:E; auto. exfalso. apply negb_true_iff in Hn.
+        assert (In x inb) by (eapply D; eauto). apply mem_var_in in H. congruence.
     - (* Values *)
       destruct p; try discriminate. cbn [implementsb] in IMP. apply andb_true_iff in IMP. destruct IMP as [E1 E2].
       apply (list_eqb_eq _ N.eqb_eq) in E1. apply rows_eqb_eq in E2. subst.
